@@ -830,6 +830,11 @@ func TestC17(t *testing.T) {
 	rep.Notes = append(rep.Notes,
 		"hash and seal recovery of every header are computed by the harness (go-ethereum types.Header.Hash, own seal hash + crypto.SigToPub) and enter the model as header fields",
 		"numbers, difficulties and times are kept below 2^62 (big.NewInt(int64(x)) in ToBscHeader)")
+	// coqc has a fixed cost of several seconds per file: one shard per evaluation worker
+	cs.Shard = (len(cs.Terms) + 13) / 14
+	if cs.Shard < 1 {
+		cs.Shard = 1
+	}
 	cs.Write(t, out)
 	rep.Write(t, out)
 }
